@@ -630,8 +630,8 @@ class Fn:
             cands.insert(0, fname)
         args = []
         for arg in n.args:
-            if isinstance(arg, ast.Name) and env.get(arg.id) == "obj":
-                args.append((arg.id, "obj"))
+            if self.is_obj_expr(arg, env):
+                args.append((arg, "obj"))
                 continue
             a, ta = self.expr(arg, env, ind)
             if ta == "prop": a, ta = self.as_bool(a, ta, arg), "bool"
@@ -657,15 +657,33 @@ class Fn:
         fname = sig.name
         objmap = {pn: a for (a, ta), (pn, pt) in zip(args, sig.params) if pt == "obj"}
         terms = [a for (a, ta) in args if ta != "obj"]
+        unit = self.unit
+
+        class _Subst(ast.NodeTransformer):
+            """the callee's read, written in the caller's terms: its object parameters replaced by the argument expressions; a field of an object
+            built at the call site (`Params(a, b, …).f`) is the constructor's argument for that field"""
+            def visit_Name(self, node):
+                return copy.deepcopy(objmap[node.id]) if node.id in objmap else node
+
+            def visit_Attribute(self, node):
+                node = self.generic_visit(node)
+                v = node.value
+                if isinstance(v, ast.Call) and isinstance(v.func, ast.Name) and v.func.id in unit.obj_records:
+                    fields = unit.obj_records[v.func.id]
+                    if isinstance(fields, str):
+                        fail(n, fields)
+                    given = dict(zip(fields, v.args))
+                    for kw in v.keywords:
+                        given[kw.arg] = kw.value
+                    if node.attr not in given:
+                        fail(n, f"{v.func.id}(…) is built without its field {node.attr}")
+                    return given[node.attr]
+                return node
 
         def caller_text(key):
             if not objmap:
                 return key
-            tree = ast.parse(key, mode="eval")
-            for m in ast.walk(tree):
-                if isinstance(m, ast.Name) and m.id in objmap:
-                    m.id = objmap[m.id]
-            return ast.unparse(tree)
+            return ast.unparse(_Subst().visit(ast.parse(key, mode="eval").body))
         read_args = []
         state_vars = []
         if getattr(sig, "reads", None):
@@ -676,9 +694,22 @@ class Fn:
             table = {nm: ty for nm, ty in self.unit.cur_reads.values()}
             for key, nm, ty in sig.read_keys:
                 if objmap:
-                    got = self.unit.cur_reads.get(caller_text(key))
-                    if got is None or got[1] != ty:
-                        fail(n, f"call of '{fname}': its input `{key}` (here `{caller_text(key)}`) is not an input of the calling function's read table")
+                    here = caller_text(key)
+                    got = self.unit.cur_reads.get(here)
+                    if got is None:
+                        # not a read of the caller: a value the caller computed and put into the object it hands over (a local, a constant)
+                        mark = len(self.lines)
+                        a_, ta_ = self.expr(ast.parse(here, mode="eval").body, env, ind)
+                        if len(self.lines) != mark:
+                            fail(n, f"call of '{fname}': its input `{key}` is `{here}` here, which can raise")
+                        if ta_ == "prop": a_, ta_ = self.as_bool(a_, ta_, n), "bool"
+                        if ty == "flt" and ta_ == "int": a_, ta_ = self.as_flt(a_, ta_, n), "flt"
+                        if ta_ != ty:
+                            fail(n, f"call of '{fname}': its input `{key}` (here `{here}`, a {ta_}) is a {ty} in its read table")
+                        read_args.append(a_)
+                        continue
+                    if got[1] != ty:
+                        fail(n, f"call of '{fname}': its input `{key}` (here `{here}`) has another type in the calling function's read table")
                     nm = got[0]
                 elif table.get(nm) != ty:
                     fail(n, f"call of '{fname}': its input '{nm}' is not an input of the calling function's read table")
@@ -711,6 +742,26 @@ class Fn:
                 fail(n, f"the result of '{fname}' is discarded")
             return None
         return self.effect(ind, action, sig.ret)
+
+    def is_obj_expr(self, arg, env):
+        """an argument that is an object of the read tables: a parameter of type obj, an attribute chain on one that is not itself a read
+        (`params.pool_config`), or an object built at the call site from a class of `obj_records`"""
+        if isinstance(arg, ast.Name):
+            return env.get(arg.id) == "obj"
+        if isinstance(arg, ast.Attribute):
+            root = arg
+            while isinstance(root, ast.Attribute):
+                root = root.value
+            return isinstance(root, ast.Name) and env.get(root.id) == "obj" and ast.unparse(arg) not in self.unit.cur_reads
+        if isinstance(arg, ast.Call) and isinstance(arg.func, ast.Name) and arg.func.id in self.unit.obj_records and arg.func.id not in env:
+            fields = self.unit.obj_records[arg.func.id]
+            if isinstance(fields, str):
+                fail(arg, fields)
+            names = list(fields[:len(arg.args)]) + [kw.arg for kw in arg.keywords]
+            if len(arg.args) > len(fields) or sorted(names) != sorted(fields):
+                fail(arg, f"{arg.func.id}(…) is not built with exactly its fields {fields}")
+            return True
+        return False
 
     def record_call(self, n, env, ind):
         """`PositionInfo(lower_tick=a, upper_tick=b)`: a NamedTuple of the source (fields checked against its class definition) is the tuple of its fields"""
@@ -973,6 +1024,18 @@ class Fn:
                     if i + 1 < len(stmts):
                         fail(stmts[i + 1], "unreachable statement after if/else that always returns")
                     return env, True
+                if term_a and not s.orelse and self.unit.narrow:
+                    # N2: after `if x is None [or y is None]: return / raise`, x (and y) hold values: `x ← Py.unwrap x` (cannot fail here) shadows the
+                    # Optional by its value
+                    tests = s.test.values if isinstance(s.test, ast.BoolOp) and isinstance(s.test.op, ast.Or) else [s.test]
+                    if all(isinstance(t_, ast.Compare) and len(t_.ops) == 1 and isinstance(t_.ops[0], ast.Is) and isinstance(t_.left, ast.Name)
+                           and isinstance(t_.comparators[0], ast.Constant) and t_.comparators[0].value is None
+                           and isinstance(env.get(t_.left.id), tuple) and env[t_.left.id][0] == "opt" for t_ in tests):
+                        for t_ in tests:
+                            nm = t_.left.id
+                            m_ = "mut " if nm in self.mut else ""
+                            self.emit(ind, f"let {m_}{nm} ← Py.unwrap {nm}")
+                            env[nm] = env[nm][1]
                 continue
             if isinstance(s, ast.For):
                 if s.orelse:
@@ -1150,6 +1213,15 @@ class Fn:
             return False
         mark, ntmp = len(self.lines), self.ntmp
         a, ta = self.expr(s.body[0].value, env, ind)
+        t_ = s.test
+        if self.unit.narrow and len(self.lines) == mark and isinstance(tg, ast.Name) and isinstance(t_, ast.Compare) and len(t_.ops) == 1 and isinstance(t_.ops[0], ast.Is) \
+                and isinstance(t_.left, ast.Name) and t_.left.id == tg.id and isinstance(t_.comparators[0], ast.Constant) and t_.comparators[0].value is None \
+                and isinstance(env[tg.id], tuple) and env[tg.id][0] == "opt" and env[tg.id][1] == ta:
+            # N2: `if x is None: x = e` on an Optional x (e cannot raise): from here on x is a value — `x` is shadowed by `x.getD e`
+            m_ = "mut " if tg.id in self.mut else ""
+            self.emit(ind, f"let {m_}{tg.id} := (Option.getD {tg.id} {a})")
+            env[tg.id] = ta
+            return True
         if len(self.lines) != mark:          # the right-hand side can raise: keep the statement form
             del self.lines[mark:]
             self.ntmp = ntmp
@@ -1158,6 +1230,11 @@ class Fn:
         want = env[names[0].id] if not isinstance(tg, ast.Tuple) else ("tuple", [env[e.id] for e in names])
         if isinstance(ta, str) and isinstance(want, str) and {ta, want} == {"dec", "dec0"}:
             env[names[0].id] = want = ta = "dec0"      # Decimal on one path, int-or-Decimal on the other
+        if isinstance(tg, ast.Name) and ta == "int" and tg.id in self.promote:
+            a, ta = self.as_flt(a, ta, s), "flt"
+        if self.probing and isinstance(ta, str) and isinstance(want, str) and {ta, want} == {"int", "flt"}:
+            self.promote.add(names[0].id)
+            env[names[0].id] = want = ta = "flt"
         if isinstance(want, tuple) and want[0] == "opt" and not isinstance(tg, ast.Tuple):
             if ta == want[1]:
                 a, ta = f"(some {a})", want             # an Optional variable given a value
@@ -1434,7 +1511,7 @@ class Unit:
     """one Python source file (optionally one class of static methods) → one generated Lean file"""
 
     def __init__(self, module, src, funcs, cls=None, consts=(), prefix="", reads=None, state=None, allow_defaults=False, records=None,
-                 float_mode=False, enums=None):
+                 float_mode=False, enums=None, obj_records=None, narrow=False):
         self.module, self.src, self.funcs, self.cls, self.const_names, self.prefix = module, src, funcs, cls, consts, prefix
         # state: {exact source text of an attribute of self: (variable, type)} — an object field the method reads AND writes.  The field becomes
         # a leading parameter (its value on entry) that the body may re-assign; `return self` returns the fields' values on exit, in the
@@ -1452,6 +1529,13 @@ class Unit:
         # checked against the class definition in the source on every run (a changed field list makes every use a ShapeError)
         self.record_specs = records or {}
         self.records = {}
+        # obj_records: {dataclass name: source file} — objects that are only built and handed to a translated function, which reads their fields
+        # through its read table (the callee's read `params.f` is then the constructor's argument for `f`); field order from the class definition
+        # narrow: flow typing of Optionals (N2) — after `if x is None: return/raise` and `if x is None: x = e`, x is a value.  Opt-in per file: the
+        # translations made before it existed keep the Optional and unwrap it at each use
+        self.narrow = narrow
+        self.obj_record_specs = obj_records or {}
+        self.obj_records = {}
         # float_mode: the file computes with Python floats: they are values of an abstract number type α (Demeter/PyFloat.lean)
         self.float_mode = float_mode
         # enums: {Enum class name: source file}: `Cls.MEMBER` is the int value the class definition gives it
@@ -1499,6 +1583,27 @@ class Unit:
             except (ShapeError, OSError, SyntaxError) as e:
                 self.records[name] = f"record {name}: {e}"
                 RECORDS.setdefault(name, list(fields))
+        for name, src in self.obj_record_specs.items():
+            try:
+                with open(os.path.join(REPO, src)) as f:
+                    tree = ast.parse(f.read())
+                cdef = [n for n in tree.body if isinstance(n, ast.ClassDef) and n.name == name]
+                if len(cdef) != 1 or [ast.unparse(d_) for d_ in cdef[0].decorator_list] not in (["dataclass"], ["dataclasses.dataclass"]) \
+                        or [ast.unparse(b) for b in cdef[0].bases] not in ([], ["object"]):
+                    raise ShapeError(f"class {name} is not a plain @dataclass (once) in {src}")
+                fields = []
+                for m in cdef[0].body:
+                    if isinstance(m, ast.AnnAssign) and isinstance(m.target, ast.Name):
+                        if m.value is not None:
+                            raise ShapeError(f"field {m.target.id} of {name} has a default")
+                        fields.append(m.target.id)
+                    elif isinstance(m, ast.Expr) and isinstance(m.value, ast.Constant):
+                        continue
+                    else:
+                        raise ShapeError(f"class {name} has a member that is not a plain field ({type(m).__name__})")
+                self.obj_records[name] = fields
+            except (ShapeError, OSError, SyntaxError) as e:
+                self.obj_records[name] = f"object class {name}: {e}"
         for name, src in self.enum_specs.items():
             try:
                 with open(os.path.join(REPO, src)) as f:
@@ -1676,6 +1781,8 @@ class Unit:
                 self.records.setdefault(k, v)
             for k, v in u.enums.items():
                 self.enums.setdefault(k, v)
+            for k, v in u.obj_records.items():
+                self.obj_records.setdefault(k, v)
         self.funcs = [(o.get("as", n), pt) for n, pt, o in entries]
         for (n, pt, o) in entries:
             key = o.get("as", n)
@@ -1945,6 +2052,22 @@ GMX2_MARKET_UTILS = Unit("Gmx2MarketUtils", _G2 + "MarketUtils.py", [
 ], cls="MarketUtils", prefix="gmx2_", float_mode=True)
 GMX2_MARKET_UTILS.uses = [GMX2_UTILS]
 UNITS.append(GMX2_MARKET_UTILS)
+
+
+_G2_PARAMS = {"params.priceForTokenA": ("price_a", FL), "params.priceForTokenB": ("price_b", FL),
+              "params.usdDeltaForTokenA": ("usd_delta_a", FL), "params.usdDeltaForTokenB": ("usd_delta_b", FL),
+              "params.includeVirtualInventoryImpact": ("include_virtual", B), "params.tokenA_is_long_token": ("token_a_is_long", B)}
+_G2_PARAMS_CFG = {"params." + k: v for k, v in _G2_CFG.items()}
+GMX2_SWAP = Unit("Gmx2SwapPricingUtils", _G2 + "SwapPricingUtils.py", [
+    ("getNextPoolAmountsParams", {"params": "obj", "poolAmountForTokenA": FL, "poolAmountForTokenB": FL}, {"reads": _G2_PARAMS}),
+    ("getNextPoolAmountsUsd", {"params": "obj", "amounts": ("rec", "Amounts")}, {"reads": _G2_PARAMS}),
+    ("_getPriceImpactUsd", {"pool_config": "obj", "pool_params": ("rec", "PoolParams")}, {"reads": _G2_CFG}),
+    ("getPriceImpactUsd", {"params": "obj", "pool_status": "obj"}, {"reads": dict(_G2_PARAMS, **_G2_PARAMS_CFG, **_G2_STATUS)}),
+    ("getSwapFees", {"pool_config": "obj", "amount": FL, "forPositiveImpact": B, "swapPricingType": I}, {"reads": _G2_CFG}),
+], cls="SwapPriceUtils", prefix="gmx2_", float_mode=True, records=_G2_RECORDS, enums={"SwapPricingType": _G2 + "SwapPricingUtils.py"},
+    obj_records={"GetPriceImpactUsdParams": _G2 + "SwapPricingUtils.py"}, narrow=True)
+GMX2_SWAP.uses = [GMX2_UTILS, GMX2_MARKET_UTILS]
+UNITS.append(GMX2_SWAP)
 
 
 BROKER_TYPING = Unit("BrokerTyping", "demeter/broker/_typing.py", [
